@@ -17,7 +17,7 @@
    signature over the header without the seal, and no equivocation is reported. *)
 From Coq Require Import ZArith NArith List Bool.
 From Common Require Import Bytes Outcome.
-From C24 Require Import Model Proofs.
+From C24 Require Import Model Proofs Manager ProofsManager Consts.
 Import ListNotations.
 Local Open Scope N_scope.
 
@@ -88,6 +88,135 @@ Theorem C24_accept_iff_prefix_partial :
    authorised R key_valid below vrf_verify seal_verify equiv c h).
 Proof. exact accept_iff_prefix_partial. Qed.
 Print Assumptions C24_accept_iff_prefix_partial.
+
+(* ================================================================== VerificationManager
+   The statements above are about verifyAuthorshipRight under given epoch data.  The ones below
+   are about VerificationManager.VerifyBlock (C24/Manager.v): which epoch's data governs the
+   block, and that the verdict does not depend on what the same manager was asked before.  The
+   node's state (block / epoch / slot state) and the verifier info are parameters of every
+   statement, as are the primitives, now indexed by the verifier info they use and by the epoch
+   number in the VRF transcript. *)
+
+(* The data epoch ("epochWhereDataDescriptorIs"): the block's own epoch when its parent is the
+   genesis block; otherwise a block whose epoch is below its parent's is refused, and the data is
+   that of min(block epoch, parent epoch + 1) -- the epoch after the parent's when epochs were
+   skipped.  (parent epoch + 1 is uint64 arithmetic; the hypothesis excludes the wrap, see
+   C24_nonvacuous_epochs for what happens there.) *)
+Theorem C24_data_epoch : forall pe cur,
+  select_epoch true pe cur = Ok cur /\
+  (forall p, pe = Some p -> p + 1 < two64 ->
+     select_epoch false pe cur = if cur <? p then Err m_epoch_lower else Ok (N.min cur (p + 1))).
+Proof.
+  intros pe cur. split; [apply select_epoch_genesis|].
+  intros p E H. subst pe. now apply select_epoch_spec.
+Qed.
+Print Assumptions C24_data_epoch.
+
+(* VerifyBlock succeeds iff the parent is known, the epochs are consistent, the verifier info of
+   the data epoch is available and the block is authorised (in the sense of C24_accept_iff)
+   under that info, with the block's OWN epoch number in the VRF transcripts. *)
+Theorem C24_verify_block_iff :
+  forall (R K : Type) k_cfg key_valid below vrf_verify seal_verify equiv
+         parent is_genesis epoch_of slot_dur_ok info (h : header R),
+  (forall d k, info d h = Some k -> allowed (k_cfg k) <= 2) ->
+  (verify_block R K k_cfg key_valid below vrf_verify seal_verify equiv parent is_genesis epoch_of
+     slot_dur_ok info h = Ok tt <->
+   block_authorised R K k_cfg key_valid below vrf_verify seal_verify equiv parent is_genesis epoch_of
+     slot_dur_ok info h).
+Proof. exact verify_block_iff. Qed.
+Print Assumptions C24_verify_block_iff.
+
+Theorem C24_block_authorised_decidable :
+  forall (R K : Type) k_cfg key_valid below vrf_verify seal_verify equiv
+         parent is_genesis epoch_of slot_dur_ok info (h : header R),
+  block_authorised_b R K k_cfg key_valid below vrf_verify seal_verify equiv parent is_genesis epoch_of
+    slot_dur_ok info h = true <->
+  block_authorised R K k_cfg key_valid below vrf_verify seal_verify equiv parent is_genesis epoch_of
+    slot_dur_ok info h.
+Proof. exact block_authorised_reflect. Qed.
+Print Assumptions C24_block_authorised_decidable.
+
+(* History independence: for every state of the manager, every sequence of earlier VerifyBlock /
+   SetOnDisabled calls (on any forks, epochs, with any outcomes) and every header, the verdict of
+   VerifyBlock is the stateless function verify_block of the header and the node's state.
+   The proof is one line because the model's VerifyBlock, like the code's, reads neither epochInfo
+   nor onDisabled; what ties that reading of the code to lib/babe is the `seq` correspondence
+   (one manager, two forks with different data for the same epoch number), and
+   C24_cached_variant_refuted shows the statement is not vacuous. *)
+Theorem C24_history_independent :
+  forall (R K : Type) k_cfg key_valid below vrf_verify seal_verify equiv
+         parent is_genesis epoch_of slot_dur_ok info descendant number
+         (st : mstate R K) (before : list (mop R)) (h : header R),
+  snd (mrun R K k_cfg key_valid below vrf_verify seal_verify equiv parent is_genesis epoch_of slot_dur_ok
+         info descendant number st (before ++ [OpVerify h])) =
+  snd (mrun R K k_cfg key_valid below vrf_verify seal_verify equiv parent is_genesis epoch_of slot_dur_ok
+         info descendant number st before) ++
+  [verify_block R K k_cfg key_valid below vrf_verify seal_verify equiv parent is_genesis epoch_of
+     slot_dur_ok info h].
+Proof. exact history_independent. Qed.
+Print Assumptions C24_history_independent.
+
+(* ... and so every VerifyBlock answer inside any history is the stateless verdict *)
+Theorem C24_history_verdicts :
+  forall (R K : Type) k_cfg key_valid below vrf_verify seal_verify equiv
+         parent is_genesis epoch_of slot_dur_ok info descendant number
+         (st : mstate R K) (ops : list (mop R)),
+  verdicts_ok R K k_cfg key_valid below vrf_verify seal_verify equiv parent is_genesis epoch_of slot_dur_ok
+    info ops
+    (snd (mrun R K k_cfg key_valid below vrf_verify seal_verify equiv parent is_genesis epoch_of slot_dur_ok
+            info descendant number st ops)).
+Proof. exact history_verdicts. Qed.
+Print Assumptions C24_history_verdicts.
+
+(* A manager that answered VerifyBlock from its epochInfo cache keyed by the epoch number alone
+   (seeded/C24-m2; [verify_block_cached] is NOT the code) would violate it: two forks announce
+   one resp. two authorities for epoch 3; after a fork-0 block, the fork-1 block claimed by
+   authority 1 is refused (index out of range under fork 0's data) although it is authorised. *)
+Theorem C24_cached_variant_refuted :
+  let kv := fun (_ : cfg) (_ : N) => true in
+  let bl := fun (_ : cfg) (_ _ _ : N) (_ : list byte) => T in
+  let vv := fun (_ : cfg) (_ _ _ : N) (_ _ : list byte) => T in
+  let sv := fun (_ : cfg) (_ : N) (_ : N) (_ : list item) (_ : list byte) => T in
+  let eqv := fun _ _ : N => F in
+  let w_info := fun (_ : N) (h : header N) => Some (w_cfg (h_rest h)) in
+  let desc := fun _ _ : header N => Some false in
+  let num := fun _ : header N => 1 in
+  let ops := [OpVerify (w_header 0 0); OpVerify (w_header 1 1)] in
+  snd (mrun N cfg (fun k => k) kv bl vv sv eqv w_parent (fun _ => true) (fun _ => Some 3) true w_info desc num
+         (ms_init N cfg) ops) = [Ok tt; Ok tt] /\
+  snd (mrun_cached N cfg (fun k => k) kv bl vv sv eqv w_parent (fun _ => true) (fun _ => Some 3) true w_info desc num
+         (ms_init N cfg) ops) = [Ok tt; Err e_badidx] /\
+  verify_block N cfg (fun k => k) kv bl vv sv eqv w_parent (fun _ => true) (fun _ => Some 3) true w_info
+    (w_header 1 1) = Ok tt.
+Proof. exact cached_refuted. Qed.
+Print Assumptions C24_cached_variant_refuted.
+
+(* the data epoch on examples: parent in epoch 3 and block in epoch 7 -> data of epoch 4; block in
+   epoch 4 or 3 -> its own; block in epoch 2 -> refused; genesis parent -> own epoch; and the
+   uint64 wrap of parentEpoch + 1 at 2^64 - 1 (data epoch 0) *)
+Example C24_nonvacuous_epochs :
+  select_epoch false (Some 3) 7 = Ok 4 /\ select_epoch false (Some 3) 4 = Ok 4 /\
+  select_epoch false (Some 3) 3 = Ok 3 /\ select_epoch false (Some 3) 2 = Err m_epoch_lower /\
+  select_epoch true None 7 = Ok 7 /\ select_epoch false None 7 = Err m_parent_epoch /\
+  select_epoch false (Some 18446744073709551615) 18446744073709551615 = Ok 0.
+Proof. exact select_epoch_examples. Qed.
+
+(* the constants of the Go source the model's literals stand for (re-read on every run into
+   Gen.v): field widths of the pre-digest codec and the AllowedSlots values the kind tests use *)
+Example C24_constants_tied :
+  (forall i s o p, length o = Z.to_nat Gen.vrf_output_length -> length p = Z.to_nat Gen.vrf_proof_length ->
+     i < 4294967296 -> s < 18446744073709551616 ->
+     decode_predigest (encode_predigest (Primary i s o p)) = Some (Primary i s o p)) /\
+  plain_allowed (Z.to_N Gen.primary_and_secondary_plain_slots) = true /\
+  vrf_allowed (Z.to_N Gen.primary_and_secondary_vrf_slots) = true /\
+  plain_allowed (Z.to_N Gen.primary_and_secondary_vrf_slots) = false /\
+  vrf_allowed (Z.to_N Gen.primary_and_secondary_plain_slots) = false /\
+  any_secondary (Z.to_N Gen.primary_slots) = false /\
+  length (randomness witness_cfg) = Z.to_nat Gen.randomness_length.
+Proof.
+  split; [|repeat split; reflexivity].
+  intros i s o p Lo Lp Hi Hs. apply decode_encode. repeat split; assumption.
+Qed.
 
 (* ---- non-vacuity: authorised blocks of each kind exist and are accepted *)
 Example C24_nonvacuous :
